@@ -68,6 +68,13 @@ def check(run, ctx):
                 if is_call_named(c, "build_violation") and len(c.args) >= 2 and isinstance(c.args[1], ast.Name) and c.args[1].id == it.id and isinstance(c.args[0], ast.Name) and c.args[0].id == tgt.id:
                     okc = True
     (run.ok(D2, "_collect_violations", "for block in L: build_violation(block, L, ...)") if okc else run.finding(D2, "_collect_violations", "loop-list", "violations are not built for each member of the list whose size is reported", cv.loc))
+    # the threshold is tested on the list that is reported (the de-duplicated one), not on a list before it
+    thr = [c for c in inline.flat_nodes(repo, cv) if is_call_named(c, "_meets_min_occurrences") and c.args]
+    reported = {c.args[1].id for c in ast.walk(cv.node) if is_call_named(c, "build_violation") and len(c.args) >= 2 and isinstance(c.args[1], ast.Name)}
+    for c in thr:
+        a = c.args[0]
+        same = isinstance(a, ast.Name) and a.id in reported
+        (run.ok(D2, "_collect_violations threshold", f"_meets_min_occurrences({norm(a)}) tests the reported list") if same else run.finding(D2, "_collect_violations", f"threshold-list:{norm(a)}", f"min_occurrences is tested on `{norm(a)}` but the violations report {sorted(reported)}: overlapping windows of one place (periodic code) count towards the threshold before de-duplication, so a single place can be reported as a duplicate of itself", f"{cv.module.rel}:{c.lineno}"))
     gl = repo.func(f"{PKG}.violation_builder.DRYViolationBuilder._get_location_refs")
     comp = next((n for n in ast.walk(gl.node) if isinstance(n, ast.ListComp) and n.generators[0].ifs), None)
     cond_e = comp.generators[0].ifs[0] if comp is not None else None
@@ -139,6 +146,36 @@ def check(run, ctx):
             run.undecided(D5, sym, "guard/loop shape not recognised")
         else:
             run.finding(D5, sym, f"window-count:{verdict}", f"{sym}: for (n lines, window w) = {verdict[0]} the code produces {verdict[1]} windows, expected {verdict[2]}: duplicated runs at the boundary are dropped (or phantom windows created)", f.loc)
+    # the window size decides only inside the rolling hashes: outside them min_duplicate_lines is handed on, never compared
+    n_w = 0
+    for f in sorted(repo.funcs_in(f"{PKG}."), key=lambda x: x.qual):
+        if f.module.name.endswith(".config") or f.parent is not None:
+            continue
+        par = {c: p_ for p_ in ast.walk(f.node) for c in ast.iter_child_nodes(p_)}
+        for a in ast.walk(f.node):
+            if not (isinstance(a, ast.Attribute) and a.attr == "min_duplicate_lines" and isinstance(a.ctx, ast.Load)):
+                continue
+            n_w += 1
+            up = par.get(a)
+            names = set()
+            if isinstance(up, (ast.Assign, ast.AnnAssign)):   # bound to a local: look at the uses of the local
+                tg = up.targets[0] if isinstance(up, ast.Assign) else up.target
+                if isinstance(tg, ast.Name):
+                    names.add(tg.id)
+            uses = [a] + [n for n in ast.walk(f.node) if isinstance(n, ast.Name) and n.id in names and isinstance(n.ctx, ast.Load)]
+            bad = None
+            for u in uses:
+                q = par.get(u)
+                while isinstance(q, (ast.keyword,)):
+                    q = par.get(q)
+                if isinstance(q, (ast.Compare, ast.BinOp, ast.BoolOp, ast.UnaryOp, ast.IfExp, ast.If, ast.While)):
+                    bad = q
+            sym = f.qual.replace("src.linters.", "")
+            if bad is None:
+                run.ok(D5, sym, "min_duplicate_lines is only handed on as the window size")
+            else:
+                run.finding(D5, sym, f"window-size-compared:{norm(bad)}", f"{sym}: `{norm(bad)}` decides with min_duplicate_lines outside the rolling hash (a size pre-filter with its own arithmetic): a file or run of exactly the window length can be dropped before it is hashed", f"{f.module.rel}:{bad.lineno}")
+    run.require(n_w >= 3, f"D5: only {n_w} uses of min_duplicate_lines found outside the config class (3 confirmed)")
     D6 = run.rule("D6", "overlap tests between inclusive line ranges are inclusive: start <= end (or the negation of end < start), also when written as max(starts) <= min(ends)", floor=4,
                   decides="two windows that share a single line overlap: the shifted copy of a periodic block is removed and not counted as a further occurrence")
     def _kind(e):
